@@ -1,12 +1,12 @@
 package main
 
 import (
-	"fmt"
 	"bytes"
-	"encoding/json"
 	"crypto/sha256"
 	"encoding/base64"
 	"encoding/binary"
+	"encoding/json"
+	"fmt"
 	"io"
 	"math/rand"
 	"strconv"
